@@ -1,10 +1,14 @@
 #!/bin/bash
-# copy behaviour-preserving changes delivered by sub-agents (/tmp/wr/cXX/BENIGN/<id>/) into /verif/benign/<id>/
-for d in /tmp/wr2/c*/BENIGN/C*-b* /tmp/wr2/c*_scratch/BENIGN/C*-b*; do
+# copy behaviour-preserving changes delivered by sub-agents (<root>/cXX/BENIGN/<id>/) into /verif/benign/<id>/
+# usage: tools/ingest_benign.sh [root ...]   (default /tmp/wr2 /tmp/wr3)
+ROOTS=${@:-/tmp/wr2 /tmp/wr3}
+for r in $ROOTS; do
+for d in $r/c*/BENIGN/C*-b* $r/c*_scratch/BENIGN/C*-b*; do
   [ -f $d/patch.diff ] || continue
   n=$(basename $d); [ -f /verif/benign/$n/patch.orig.diff ] && continue   # rebased by hand: keep
   mkdir -p /verif/benign/$n
   cp $d/patch.diff $d/meta.json /verif/benign/$n/ 2>/dev/null
   [ -f $d/equiv.py ] && cp $d/equiv.py /verif/benign/$n/
   echo $n
+done
 done
